@@ -148,8 +148,17 @@ def make_probe(coords, dtype=np.float64):
     return arim.Probe(arim.Points(np.ascontiguousarray(coords.astype(dtype)), "Probe"), 1e6)
 
 
+_grid_calls = [0]
+
+
 def make_grid(coords, shape, dtype=np.float64):
-    return arim.Points(np.ascontiguousarray(coords.reshape(tuple(shape) + (3,)).astype(dtype)), "Grid")
+    arr = np.ascontiguousarray(coords.reshape(tuple(shape) + (3,)).astype(dtype))
+    _grid_calls[0] += 1
+    if len(tuple(shape)) >= 2 and _grid_calls[0] % 3 == 0:
+        # the same points stored column-major (a point set imported from MATLAB, np.asfortranarray): same grid, same image
+        arr = np.asfortranarray(arr)
+        chk.count(grid_memory_order="Fortran")
+    return arim.Points(arr, "Grid")
 
 
 def make_frame(case, probe):
